@@ -61,7 +61,14 @@ prop("C01", "fault_enumeration",
      "key set it can compute (transcript after each of its own messages, after the server's answer without the static DH, after the "
      "answer processed with the key it holds) and then FORGED transport packets for that session ID sealed under no key at all (seeded random "
      "payload of 0 / 1 / 17 / 64 bytes and random tag, counter next in line and far ahead); it learns the session ID from the handshake answer, from the greeting the server "
-     "application writes on an offered connection, or is told it; one puppet identity in five (of the classic-impostor kind) names a low-order key. Oracle unchanged (discoverable: Accept offers => acceptable and key "
+     "application writes on an offered connection, or is told it; one puppet identity in five (of the classic-impostor kind) names a low-order key. In discoverable mode one step in three is a puppet that sends SEVERAL ClientAuth messages on its ONE pending handshake: first 1-3 "
+     "messages for generated BAIT identities (any chain kind, mostly one nobody signed - hand-made, self-signed, under the untrusted root - and "
+     "mostly carrying the expected name; chain encrypted under the running transcript with the correct tag, final MAC random bytes: nobody holds "
+     "a bait's key, so a bait message cannot complete a handshake by itself; a message refused while the certificates are verified leaves both "
+     "transcripts in step), then the ClientAuth of the identity it really has (near-valid, mostly holding its key, mostly short of the policy in "
+     "one attribute - another name, expired, other chain), then data under every key set as before, the transcripts after the bait messages included; judged by "
+     "the reference decision for its OWN identity alone (the honest-is-served clause is not applied to such a step; labels count the acceptable "
+     "ones served after refused baits). The same baited puppet steps occur in the 'long-lived verifier' family (server judges, discoverable). Oracle unchanged (discoverable: Accept offers => acceptable and key "
      "held; both modes: data delivered => same); an honest peer (real or puppet) under which no lookup failed is served. Non-trivial = "
      "a lookup failed or a puppet took part, and some identity is unacceptable.",
      ["ML-KEM, X25519, Ed25519 and the duplex are not attacked by search; impostors are structural (valid certificate, other key)",
